@@ -79,6 +79,11 @@ class Ctx:
         base = canon([self.cur[0], self.cur[1]]) if ident is None else canon([self.cur[0], ident])
         self.distinct.add(h64(base))
 
+    def seen(self, tag, obj):
+        """Cheap distinct-counting of sub-cases (hashable obj; PYTHONHASHSEED is pinned by ./check)."""
+        self.distinct.add(hash((tag, obj)) & 0xFFFFFFFFFFFFFFF)
+        self.evaluations += 1
+
     def evals(self, n=1):
         self.evaluations += n
 
